@@ -26,8 +26,8 @@ type GlobCase struct {
 	// through such a link is not settled by the property (accept either); everything else stays exact
 	DirLink string `json:"dir_link,omitempty"`
 	// FileLinks "name->target": symbolic links to files (matching and not matching the patterns, hidden, missing).
-	// Whether the link itself is part of the expansion is left open (only regular files are compared); what a
-	// link must never do is bring its target into an expansion the target's own path does not belong to
+	// A link to an existing regular file is a file of the tree under the link's own path (a dangling link is not);
+	// a link never brings its target into an expansion the target's own path does not belong to
 	FileLinks []string `json:"file_links,omitempty"`
 	// RootName: the spokfile's directory is a sub-directory with this name (glob meta characters, spaces,
 	// non-ASCII, a leading dash): the pattern is relative to it, its own name is not part of any pattern
@@ -159,6 +159,7 @@ func (globScen) Exec(w *World, cc any, prop string) *Result {
 		must(os.Symlink(filepath.FromSlash(parts[1]), filepath.Join(root, filepath.FromSlash(linkName))))
 		res.count("fault_present:directory_symlink_in_tree")
 	}
+	linkTargets := map[string]string{} // link path -> target path, both relative to root
 	for _, fl := range c.FileLinks {
 		parts := strings.SplitN(fl, "->", 2)
 		full := filepath.Join(root, filepath.FromSlash(parts[0]))
@@ -167,6 +168,7 @@ func (globScen) Exec(w *World, cc any, prop string) *Result {
 		}
 		if os.MkdirAll(filepath.Dir(full), 0o755) == nil && os.Symlink(filepath.FromSlash(parts[1]), full) == nil {
 			res.count("fault_present:file_symlink_in_tree")
+			linkTargets[parts[0]] = filepath.ToSlash(filepath.Join(filepath.Dir(parts[0]), parts[1]))
 		}
 	}
 	// throughLink: rel names a regular file reached through the directory link and matching the pattern
@@ -229,6 +231,12 @@ func (globScen) Exec(w *World, cc any, prop string) *Result {
 				if st.Mode().IsRegular() {
 					r, _ := filepath.Rel(root, abs)
 					files = append(files, filepath.ToSlash(r))
+				} else if st.Mode()&os.ModeSymlink != 0 {
+					// a symbolic link to an existing regular file is a file of the tree under the link's own path
+					if tst, err := os.Stat(abs); err == nil && tst.Mode().IsRegular() {
+						r, _ := filepath.Rel(root, abs)
+						files = append(files, filepath.ToSlash(r))
+					}
 				}
 			}
 			sort.Strings(files)
@@ -247,7 +255,21 @@ func (globScen) Exec(w *World, cc any, prop string) *Result {
 			return false
 		}
 		for _, p := range pats {
-			want := RefGlob(model, p)
+			// the tree as the reference sees it: the regular files plus the links whose target is one of them
+			ref := model
+			if len(linkTargets) > 0 {
+				ref = make(map[string]string, len(model)+len(linkTargets))
+				for k, v := range model {
+					ref[k] = v
+				}
+				for l, t := range linkTargets {
+					if _, ok := model[t]; ok {
+						ref[l] = "->" + t
+						res.count("probe:link_to_a_regular_file_in_tree")
+					}
+				}
+			}
+			want := RefGlob(ref, p)
 			var got []string
 			for _, f := range dedupSorted(first[p]) {
 				if throughLink(p, f) {
